@@ -324,11 +324,11 @@ class ExportDataset:
         # in a NetCDF file times are written with respect to a reference date
         # the written values for the times may never be negative, so use the earliest time as the
         # reference date
-        reference_date = forecast_date
+        reference_date = forecast_date - timedelta(seconds=float(forecast_time))
         minimum_time = np.min(times)
         if minimum_time < 0:
             times = times - minimum_time
-            reference_date = reference_date - timedelta(seconds=forecast_time - minimum_time)
+            reference_date = reference_date + timedelta(seconds=float(minimum_time))
 
         self.__time_dim = self.__dataset.createDimension("time", None)
 
